@@ -9,10 +9,14 @@ import (
 	"github.com/Tnze/go-mc/nbt"
 )
 
+var errNegativeLength = errors.New("declared length less than 0")
+
 func (v *Value) UnmarshalNBT(tagType byte, r nbt.DecoderReader) error {
 	v.tag = tagType
 	var buf [8]byte
 	switch tagType {
+	default:
+		return fmt.Errorf("unknown Tag %#02x", tagType)
 	case nbt.TagEnd:
 	case nbt.TagByte:
 		n, err := r.ReadByte()
@@ -22,19 +26,19 @@ func (v *Value) UnmarshalNBT(tagType byte, r nbt.DecoderReader) error {
 		v.data = append(v.data[:0], n)
 
 	case nbt.TagShort:
-		if _, err := r.Read(buf[:2]); err != nil {
+		if _, err := io.ReadFull(r, buf[:2]); err != nil {
 			return err
 		}
 		v.data = append(v.data[:0], buf[:2]...)
 
 	case nbt.TagInt, nbt.TagFloat:
-		if _, err := r.Read(buf[:4]); err != nil {
+		if _, err := io.ReadFull(r, buf[:4]); err != nil {
 			return err
 		}
 		v.data = append(v.data[:0], buf[:4]...)
 
 	case nbt.TagLong, nbt.TagDouble:
-		if _, err := r.Read(buf[:]); err != nil {
+		if _, err := io.ReadFull(r, buf[:]); err != nil {
 			return err
 		}
 		v.data = append(v.data[:0], buf[:]...)
@@ -43,6 +47,9 @@ func (v *Value) UnmarshalNBT(tagType byte, r nbt.DecoderReader) error {
 		n, err := readInt32(r)
 		if err != nil {
 			return err
+		}
+		if n < 0 {
+			return errNegativeLength
 		}
 
 		v.data = append(v.data[:0], make([]byte, 4+n)...)
@@ -57,6 +64,9 @@ func (v *Value) UnmarshalNBT(tagType byte, r nbt.DecoderReader) error {
 		n, err := readInt16(r)
 		if err != nil {
 			return err
+		}
+		if n < 0 {
+			return errNegativeLength
 		}
 
 		v.data = append(v.data[:0], make([]byte, 2+n)...)
@@ -77,6 +87,9 @@ func (v *Value) UnmarshalNBT(tagType byte, r nbt.DecoderReader) error {
 		if err != nil {
 			return err
 		}
+		if length < 0 {
+			return errNegativeLength
+		}
 
 		v.list = v.list[:0]
 
@@ -91,6 +104,7 @@ func (v *Value) UnmarshalNBT(tagType byte, r nbt.DecoderReader) error {
 		}
 
 	case nbt.TagCompound:
+		v.comp.kvs = v.comp.kvs[:0]
 		for {
 			t, name, err := readTag(r)
 			if err != nil {
@@ -114,6 +128,9 @@ func (v *Value) UnmarshalNBT(tagType byte, r nbt.DecoderReader) error {
 		if err != nil {
 			return err
 		}
+		if n < 0 {
+			return errNegativeLength
+		}
 
 		v.data = append(v.data[:0], make([]byte, 4+n*4)...)
 		binary.BigEndian.PutUint32(v.data, uint32(n))
@@ -127,6 +144,9 @@ func (v *Value) UnmarshalNBT(tagType byte, r nbt.DecoderReader) error {
 		n, err := readInt32(r)
 		if err != nil {
 			return err
+		}
+		if n < 0 {
+			return errNegativeLength
 		}
 
 		v.data = append(v.data[:0], make([]byte, 4+n*8)...)
